@@ -17,7 +17,7 @@ def generate():
     emap = errors_map_of(DefaultConfig)
     out = []
     out.append('/-- `DefaultConfig.errors_map`: error class name → status of the mapped `HTTPError` -/')
-    out.append('def errorsMap : List (String × Nat) := '
+    out.append('def bodyErrorsMap : List (String × Nat) := '
                + llist(f'({lstr(k)}, {v})' for k, v in emap))
     for name, cfg in (('', DefaultConfig), ('request', RequestConfig)):
         mb, mm = cfg.max_body_size, cfg.max_memfile_size
